@@ -135,6 +135,23 @@ def run():
             ck.reject(f"C07:message-text:{src.split('(')[0].split(' ')[0][:12]}", f"{src!r}: unhandled it ends with {top}; a handler receives {held}; the message must carry {plain!r} verbatim and be the same in both",
                       {"src": src, "observed": [top, held], "text": plain})
     ck.cov["message_text_programs"] = len(mmeta)
+    # every built-in error kind, raised by the program itself: the kind that is delivered (to the top, to try, to catch) is the kind that was raised
+    kinds_ = ["Err", "AssertionErr", "NameErr", "NoPropErr", "NotImplementedErr", "StopIterErr", "SyntaxErr", "TypeErr", "ValueErr", "ZeroDivisionErr", "FileNotFoundErr"]
+    kreqs = []
+    for K in kinds_:
+        kreqs.append({"id": f"k{K}.top", "src": f'f := {{|| raise {K}.new("m")}}; f()'})
+        kreqs.append({"id": f"k{K}.try", "src": f'e := nil.try.{{|u| raise {K}.new("m")}}.err; [e.type._name, e.type == {K}, e.kindOf?({K}), e.msg]'})
+        kreqs.append({"id": f"k{K}.catch", "src": f'[nil.try.{{|u| raise {K}.new("m")}}.catch({K}){{|x| "caught"}}.val, nil.try.{{|u| raise {K}.new("m") if true}}.ignore({K}).A]'})
+        kreqs.append({"id": f"k{K}.guard", "src": f'g := {{|c| raise {K}.new("m") if c; 1}}; [g(false), nil.try.{{|u| g(true)}}.err.type._name]'})
+    kout = run_cases(kreqs, label="C07 raised kinds")
+    for K in kinds_:
+        want = {"top": f"err:{K}:m", "try": f'val:["{K}", true, true, "m"]', "catch": 'val:["caught", [nil, nil]]', "guard": f'val:[1, "{K}"]'}
+        for form, w in want.items():
+            got = kout[f"k{K}.{form}"]["end"]
+            if got != w and not got.startswith(("discarded:", "fuel:")):
+                ck.reject(f"C07:raised-kind:{K}:{form}", f"{kreqs[[r['id'] for r in kreqs].index(f'k{K}.{form}')]['src']!r} gives {got}, expected {w}",
+                          {"src": kreqs[[r["id"] for r in kreqs].index(f"k{K}.{form}")]["src"], "observed": got, "expected": w})
+    ck.cov["raised_kind_programs"] = len(kreqs)
     reached = sum(1 for r in res.values() if r["status"] == "ok" and "out:70" in r["observed"]["ev"] and "out:71" not in r["observed"]["ev"])
     ck.cov["evaluations"] = len(fam)
     ck.cov["distinct_nontrivial"] = reached
